@@ -129,12 +129,13 @@ func init() {
 
 		"(*sync.Pool).Get":        mPoolGet,
 		"(*sync.Pool).Put":        mPoolPut,
-		"(*sync.RWMutex).Lock":    func(e *Engine, a []Value) Value { e.ls.held[a[0].(*Value)] = "W"; return nil },
-		"(*sync.RWMutex).Unlock":  func(e *Engine, a []Value) Value { delete(e.ls.held, a[0].(*Value)); return nil },
-		"(*sync.RWMutex).RLock":   func(e *Engine, a []Value) Value { e.ls.held[a[0].(*Value)] = "R"; return nil },
-		"(*sync.RWMutex).RUnlock": func(e *Engine, a []Value) Value { delete(e.ls.held, a[0].(*Value)); return nil },
-		"(*sync.Mutex).Lock":      func(e *Engine, a []Value) Value { e.ls.held[a[0].(*Value)] = "W"; return nil },
-		"(*sync.Mutex).Unlock":    func(e *Engine, a []Value) Value { delete(e.ls.held, a[0].(*Value)); return nil },
+		"(*sync.RWMutex).Lock":    func(e *Engine, a []Value) Value { e.mLock(a[0].(*Value), true); return nil },
+		"(*sync.RWMutex).Unlock":  func(e *Engine, a []Value) Value { e.mUnlock(a[0].(*Value), true); return nil },
+		"(*sync.RWMutex).RLock":   func(e *Engine, a []Value) Value { e.mLock(a[0].(*Value), false); return nil },
+		"(*sync.RWMutex).RUnlock": func(e *Engine, a []Value) Value { e.mUnlock(a[0].(*Value), false); return nil },
+		"(*sync.Mutex).Lock":      func(e *Engine, a []Value) Value { e.mLock(a[0].(*Value), true); return nil },
+		"(*sync.Mutex).Unlock":    func(e *Engine, a []Value) Value { e.mUnlock(a[0].(*Value), true); return nil },
+		twigPkg + "symParallel":   mParallel,
 
 		"encoding/gob.Register": mNop,
 		"time.Now": func(e *Engine, a []Value) Value {
@@ -517,6 +518,9 @@ func poolNew(p *Value) Value {
 // 2 = FIFO queue. The object order is the only freedom the property-relevant code can observe.
 func mPoolGet(e *Engine, a []Value) Value {
 	p := a[0].(*Value)
+	if e.par != nil && e.par.poolYield {
+		e.yield()
+	}
 	if e.poolModel == 0 {
 		if v, ok := e.poolPrivate[p]; ok {
 			delete(e.poolPrivate, p)
@@ -545,6 +549,9 @@ func mPoolGet(e *Engine, a []Value) Value {
 }
 func mPoolPut(e *Engine, a []Value) Value {
 	p := a[0].(*Value)
+	if e.par != nil && e.par.poolYield {
+		e.yield()
+	}
 	if it, ok := a[1].(Iface); ok {
 		if pv, ok := it.V.(*Value); ok {
 			if lbl, ro := e.readonly[pv]; ro {
